@@ -180,6 +180,7 @@ pub fn ops_of(kind: &str) -> Vec<&'static str> {
         "oauth2" => vec!["oauth2"],
         "domain" => vec!["domain"],
         "reap" => vec!["reap"],
+        "reindex" => vec!["reindex"],
         // C06 writer: two related entries + schema + access profile + OAuth2 client + domain setting
         "c6" => vec!["modify", "modifyb", "schema", "acp", "oauth2", "domain"],
         "all" => vec!["create", "modify", "delete", "schema", "acp", "oauth2", "domain"],
@@ -220,6 +221,8 @@ pub fn apply_op(w: &mut QueryServerWriteTransaction<'_>, op: &str) -> Result<(),
         "delete" => w.internal_delete_uuid(uuid_e(E2)),
         // recycled -> tombstone for everything older than the recycle window
         "reap" => w.purge_recycled().map(|_| ()),
+        // purge every index table and rebuild all of them inside this transaction
+        "reindex" => w.reindex(false),
         "schema" | "schemaidx" => w.internal_create(vec![kanidmd_lib::entry_init!(
             (Attribute::Class, EntryClass::Object.to_value()),
             (Attribute::Class, EntryClass::AttributeType.to_value()),
